@@ -690,4 +690,110 @@ def gen_AhabConsts():
     emit("AhabConsts", "\n".join(o) + "\n", meta)
 
 
-GENERATORS = {"AhabConsts": gen_AhabConsts}
+# ------------------------------------------------------------------------------------------------ Phase 3: utils/verifier.py
+def _rcond(test):
+    """Classify one `if` test of Verifier.add_record_bit_range / add_record_range (value-level reading, both spellings of a
+    comparison are recognised); anything else becomes `.unknown` and the agreement theorem fails (no silent downgrade)."""
+    def nm(n, name):
+        return isinstance(n, ast.Name) and n.id == name
+    if isinstance(test, ast.Compare) and len(test.ops) == 1:
+        l, op, r = test.left, test.ops[0], test.comparators[0]
+        if isinstance(op, ast.Is) and nm(l, "value") and isinstance(r, ast.Constant) and r.value is None:
+            return ".isNone"
+        if isinstance(op, ast.Eq) and nm(l, "value") and isinstance(r, ast.Constant) and r.value is None:
+            return ".isNone"
+        if (isinstance(op, ast.Lt) and nm(l, "value") and nm(r, "min_val")) or (isinstance(op, ast.Gt) and nm(l, "min_val") and nm(r, "value")):
+            return ".ltMin"
+        if (isinstance(op, ast.Gt) and nm(l, "value") and nm(r, "max_val")) or (isinstance(op, ast.Lt) and nm(l, "max_val") and nm(r, "value")):
+            return ".gtMax"
+    if isinstance(test, ast.UnaryOp) and isinstance(test.op, ast.Not) and isinstance(test.operand, ast.Call):
+        c = test.operand
+        if isinstance(c.func, ast.Name) and c.func.id == "check_range" and len(c.args) == 1 and nm(c.args[0], "value"):
+            kw = {k.arg: k.value for k in c.keywords}
+            if set(kw) == {"end"} and ast.dump(kw["end"]) == ast.dump(ast.parse("(1 << bit_range) - 1", mode="eval").body):
+                return ".notInBitRange"
+    return '.unknown "' + ast.unparse(test).replace('"', "'") + '"'
+
+
+def _branch_result(body):
+    """the VerifierResult of the single `self.add_record(name, VerifierResult.X, ...)` call of a branch"""
+    calls = [c for st in body for c in ast.walk(st) if isinstance(c, ast.Call) and isinstance(c.func, ast.Attribute) and c.func.attr == "add_record"]
+    if len(calls) != 1 or len(calls[0].args) < 2:
+        return "?"
+    a = calls[0].args[1]
+    return a.attr if isinstance(a, ast.Attribute) and isinstance(a.value, ast.Name) and a.value.id == "VerifierResult" else "?"
+
+
+def _branches(fn):
+    out = []
+    stmts = [s for s in fn.body if not (isinstance(s, ast.Expr) and isinstance(s.value, ast.Constant))]
+    if len(stmts) != 1 or not isinstance(stmts[0], ast.If):
+        return [('.unknown "body is not one if-chain"', "?")]
+    node = stmts[0]
+    while True:
+        out.append((_rcond(node.test), _branch_result(node.body)))
+        if len(node.orelse) == 1 and isinstance(node.orelse[0], ast.If):
+            node = node.orelse[0]
+            continue
+        out.append((".otherwise", _branch_result(node.orelse) if node.orelse else "NONE"))
+        return out
+
+
+def gen_AhabVerifierRecs():
+    """`Verifier.add_record_bit_range` / `add_record_range` (spsdk/utils/verifier.py) as branch tables + their default arguments,
+    and the default arguments of `misc.check_range`."""
+    tree = parse("spsdk/utils/verifier.py")
+    cls = next(n for n in tree.body if isinstance(n, ast.ClassDef) and n.name == "Verifier")
+    fns = {n.name: n for n in cls.body if isinstance(n, ast.FunctionDef)}
+    meta = {"functions": {}}
+    o = ["namespace SpsdkVerif.Generated.AhabVerifierRecs", "",
+         "inductive RCond where", "  | isNone | notInBitRange | ltMin | gtMax | otherwise", "  | unknown (src : String)",
+         "  deriving Repr, DecidableEq", ""]
+
+    def defaults(fn):
+        args = fn.args.args[1:]
+        ds = [None] * (len(args) - len(fn.args.defaults)) + list(fn.args.defaults)
+        res = {}
+        for a, d in zip(args, ds):
+            if d is not None:
+                try:
+                    res[a.arg] = eval(compile(ast.Expression(d), "<default>", "eval"), {"__builtins__": {}}, {})  # literals / arithmetic only
+                except Exception:  # noqa: BLE001
+                    res[a.arg] = None
+        return res
+
+    for lean, name in (("bitRangeBranches", "add_record_bit_range"), ("rangeBranches", "add_record_range")):
+        fn = fns.get(name)
+        br = _branches(fn) if fn is not None else [('.unknown "missing"', "?")]
+        meta["functions"][name] = {"branches": br, "defaults": {k: v for k, v in (defaults(fn) if fn else {}).items() if isinstance(v, (int, bool))}}
+        o.append(f"/-- the if-chain of `Verifier.{name}`: (condition, VerifierResult of the record added) -/")
+        o.append(f"def {lean} : List (RCond × String) := [" + ", ".join(f'({c}, "{r}")' for c, r in br) + "]")
+    d1 = defaults(fns["add_record_bit_range"]) if "add_record_bit_range" in fns else {}
+    d2 = defaults(fns["add_record_range"]) if "add_record_range" in fns else {}
+    mt = parse("spsdk/utils/misc.py")
+    cr = next((n for n in mt.body if isinstance(n, ast.FunctionDef) and n.name == "check_range"), None)
+    d3 = defaults_plain(cr) if cr is not None else {}
+    o += ["", f"def bitRangeDefaultBits : Int := {d1.get('bit_range') if isinstance(d1.get('bit_range'), int) else -1}",
+          f"def rangeDefaultMin : Int := {d2.get('min_val') if isinstance(d2.get('min_val'), int) else -1}",
+          f"def rangeDefaultMax : Int := {d2.get('max_val') if isinstance(d2.get('max_val'), int) else -1}",
+          f"def checkRangeDefaultStart : Int := {d3.get('start') if isinstance(d3.get('start'), int) else -1}",
+          f"def checkRangeDefaultEnd : Int := {d3.get('end') if isinstance(d3.get('end'), int) else -1}",
+          "", "end SpsdkVerif.Generated.AhabVerifierRecs"]
+    meta["check_range_defaults"] = {k: v for k, v in d3.items() if isinstance(v, int)}
+    emit("AhabVerifierRecs", "\n".join(o) + "\n", meta)
+
+
+def defaults_plain(fn):
+    args = fn.args.args
+    ds = [None] * (len(args) - len(fn.args.defaults)) + list(fn.args.defaults)
+    res = {}
+    for a, d in zip(args, ds):
+        if d is not None:
+            try:
+                res[a.arg] = eval(compile(ast.Expression(d), "<default>", "eval"), {"__builtins__": {}}, {})
+            except Exception:  # noqa: BLE001
+                res[a.arg] = None
+    return res
+
+
+GENERATORS = {"AhabConsts": gen_AhabConsts, "AhabVerifierRecs": gen_AhabVerifierRecs}
